@@ -20,6 +20,7 @@ R5  composite components: every container of sub-components evaluated in calc_va
     gradient use the same coefficient
 R6  layering: atom::apply_force() is called only from the atom-group layer (atom_group::apply_colvar_force,
     group_force_object), which rotates forces back to the laboratory frame and adds the forces on the fitting group
+R11 value and force of a per-coordinate vector component use the same element <-> coordinate map
 R10 fit gradients are switched off only by components whose value is stationary under the fit (squared deviations)
 R9  a quadratic energy and the force terms next to it share the prefactor
 R8  cached group totals: where a function refreshes a per-atom quantity from the engine (atom::update_mass/charge), every
@@ -1061,9 +1062,90 @@ def r10(F, rep):
                 detail="the rotation (and centring) of the fit depends on every atom: without the fit term the applied forces are not the derivative of the value", func=f.q)
     if n < 1:
         raise AnalysisBroken("C01-R10: no component switches off fit gradients (rmsd expected)")
+    # a component that switches the rotational fit on by itself also switches the fit gradients on, unless it qualifies
+    # for leaving them off (squared deviation only)
+    m = 0
+    for f in F.funcs.values():
+        if "/src/" not in f.file or not f.cls or f.body is None:
+            continue
+        for c in X.calls(f):
+            if X.callee_name(c) != "enable" or not X.call_args(c) or "f_ag_rotate" not in X.key(X.call_args(c)[0], f) or X.receiver(c) is None:
+                continue
+            if f.cls == "colvarmodule::atom_group":
+                continue
+            gk = X.key(X.receiver(c), f)
+            m += 1
+            on = [d for d in X.calls(f) if X.callee_name(d) == "enable" and X.call_args(d) and "f_ag_fit_gradients" in X.key(X.call_args(d)[0], f) and
+                  X.receiver(d) is not None and X.key(X.receiver(d), f) == gk and f.cfg.can_reach(c, d)]
+            off = [d for d in X.calls(f) if X.callee_name(d) == "disable" and X.call_args(d) and "f_ag_fit_gradients" in X.key(X.call_args(d)[0], f) and
+                   X.receiver(d) is not None and X.key(X.receiver(d), f) == gk and f.cfg.can_reach(c, d)]
+            ok = (bool(on) and not off) or bool(off)     # an explicit disable is judged by the obligation above
+            rep.add("C01-R10", "%s|%s|rotate-on" % (f.q, X.re_strip(gk)), f.loc(c), "%s enables the rotational fit of `%s` itself and %s" % (
+                f.q, X.re_strip(gk), "enables its fit gradients as well" if on and not off else "explicitly disables its fit gradients (see above)" if off else
+                "NEITHER enables NOR disables its fit gradients: they stay off (atom_group only enables them for fits requested in its own block)"), ok,
+                detail="the value depends on the optimal rotation; without the fit term the forces miss its derivative", func=f.q)
+    if m < 3:
+        raise AnalysisBroken("C01-R10: only %d components enabling the rotational fit themselves found" % m)
+
+
+# ------------------------------------------------------------------------------------------------ R11
+def _norm_locals(*keys):
+    """rename local identifiers (name#id or bare loop names) by order of first appearance over the given strings."""
+    import re as _re
+    m = {}
+
+    def sub(mo):
+        w = mo.group(0)
+        if w not in m:
+            m[w] = "v%d" % len(m)
+        return m[w]
+    return tuple(_re.sub(r"\b[A-Za-z_][A-Za-z_0-9]*#\d+", sub, k) for k in keys)
+
+
+def r11(F, rep):
+    rep.rule("C01-R11", "element <-> coordinate map: a component that stores coordinate components of its atoms into the elements "
+                        "of its vector value (x.vector1d_value[E] = atom.pos[K]) and hands the elements of the force back to "
+                        "coordinate components (f[K'] = force.vector1d_value[E']) uses the same pair (E, K) in both, up to the "
+                        "names of the loop variables")
+    n = 0
+    for cls in sorted(F.subclasses(CVC, strict=True)):
+        cv = F.find_method(cls, "calc_value")
+        af = F.find_method(cls, "apply_force")
+        if not cv or not af or cv[0].cls != cls or af[0].cls != cls:
+            continue
+        f, g = cv[0], af[0]
+        vmap = set()
+        for w, t in lvalue_writes(f):
+            t = X.strip(t)
+            if w.get("op") != "=" or t["k"] != "CXXOperatorCallExpr" or t.get("op") != "[]" or "vector1d_value" not in X.key(X.call_args(t)[0], f):
+                continue
+            rhs = X.kids(w)[1] if w["k"] == "BinaryOperator" else X.call_args(w)[1]
+            for m in f.walk(rhs):
+                if m["k"] == "CXXOperatorCallExpr" and m.get("op") == "[]" and X.key(X.call_args(m)[0], f).endswith(".pos"):
+                    vmap.add(_norm_locals(X.key(X.call_args(t)[1], f, X.const_locals(f)), X.key(X.call_args(m)[1], f, X.const_locals(f))))
+        if not vmap:
+            continue
+        fmap = set()
+        pd = g.params[0]["d"] if g.params else None
+        for w, t in lvalue_writes(g):
+            t = X.strip(t)
+            if w.get("op") != "=" or t["k"] != "CXXOperatorCallExpr" or t.get("op") != "[]":
+                continue
+            rhs = X.strip(X.kids(w)[1] if w["k"] == "BinaryOperator" else X.call_args(w)[1])
+            if rhs["k"] == "CXXOperatorCallExpr" and rhs.get("op") == "[]" and "vector1d_value" in X.key(X.call_args(rhs)[0], g) and \
+                    X.mentions(X.call_args(rhs)[0], lambda y: y["k"] == "DeclRefExpr" and y.get("d") == pd):
+                fmap.add(_norm_locals(X.key(X.call_args(rhs)[1], g, X.const_locals(g)), X.key(X.call_args(t)[1], g, X.const_locals(g))))
+        n += 1
+        ok = bool(fmap) and vmap == fmap
+        rep.add("C01-R11", "%s|element-map" % cls, g.loc(), "%s: value elements <- coordinates %s; coordinates <- force elements %s" % (
+            cls, sorted(vmap), sorted(fmap) or "NOT FOUND"), ok,
+            detail="the energy depends on one coordinate while the force is applied to another", func=cls)
+    if n < 1:
+        raise AnalysisBroken("C01-R11: no component with an explicit element <-> coordinate map found (cartesian expected)")
 
 
 def run(F, rep, tier):
+    r11(F, rep)
     r10(F, rep)
     r9(F, rep)
     r1(F, rep)
